@@ -75,6 +75,13 @@ def run(item):
         if M.shape != want_shape:
             fails.append({"what": "shape", "got": list(M.shape), "expected": list(want_shape)})
         m2 = C(**kw)
+        if len(t["trees"]) == 1:        # this object has a past: fitted on another tree and used, then re-fitted
+            try:
+                P = build({"trees": [{"par": [0, 1, 1, 3], "lab": [1, 0, 1, 2]}], "adj": "float"})
+                m2.fit(P)
+                m2.transform(P)
+            except Exception:  # noqa
+                pass
         if m2.fit(X) is not m2:
             fails.append({"what": "fit does not return self"})
         T = m2.transform(X)
